@@ -306,20 +306,20 @@ func v3Decode(s string) v3State { return v3Commit(foldH(v3Sep, v3Val, v3Init(), 
 
 // ---- contracts ----
 
-//@ func New
+//@ func New()
 //@   props C09 C14
 //@   ensures [fresh] result != nil && smInv(result)
 //@   ensures [fresh.object@C14] fresh(result) && fresh(result.nameIndex)
 //@   ensures [empty] len(result.mappings) == 0 && len(result.names) == 0 && result.generatedLine == 0 && result.generatedColumn == 0
 
-//@ func (m *SourceMapper) AdvanceColumn
+//@ func (m *SourceMapper) AdvanceColumn(n)
 //@   props C09
 //@   requires smInv(m)
 //@   modifies m.generatedColumn
 //@   ensures [col] m.generatedColumn == old(m.generatedColumn)+n
 //@   ensures [inv] smInv(m)
 
-//@ func (m *SourceMapper) AdvanceLine
+//@ func (m *SourceMapper) AdvanceLine()
 //@   props C09
 //@   requires smInv(m)
 //@   modifies m.generatedLine, m.generatedColumn
@@ -327,7 +327,7 @@ func v3Decode(s string) v3State { return v3Commit(foldH(v3Sep, v3Val, v3Init(), 
 //@   ensures [col] m.generatedColumn == 0
 //@   ensures [inv] smInv(m)
 
-//@ func (m *SourceMapper) AddMapping
+//@ func (m *SourceMapper) AddMapping(sourceLine, sourceColumn)
 //@   props C09
 //@   requires smInv(m)
 //@   modifies m.mappings
@@ -336,7 +336,7 @@ func v3Decode(s string) v3State { return v3Commit(foldH(v3Sep, v3Val, v3Init(), 
 //@   ensures [entry] m.mappings[len(old(m.mappings))] == Mapping{old(m.generatedLine), old(m.generatedColumn), sourceLine, sourceColumn, 0, false}
 //@   ensures [inv] smInv(m)
 
-//@ func (m *SourceMapper) AddNamedMapping
+//@ func (m *SourceMapper) AddNamedMapping(sourceLine, sourceColumn, name)
 //@   props C09
 //@   requires smInv(m)
 //@   modifies m.mappings, m.names, m.nameIndex[*]
@@ -349,7 +349,7 @@ func v3Decode(s string) v3State { return v3Commit(foldH(v3Sep, v3Val, v3Init(), 
 //@   ensures [first] implies(!old(has(m.nameIndex, name)), len(m.names) == len(old(m.names))+1 && m.mappings[len(old(m.mappings))].NameIndex == len(old(m.names)))
 //@   ensures [inv] smInv(m)
 
-//@ func (m *SourceMapper) AdvanceString
+//@ func (m *SourceMapper) AdvanceString(s)
 //@   props C09
 //@   requires smInv(m)
 //@   modifies m.generatedLine, m.generatedColumn
@@ -361,7 +361,7 @@ func v3Decode(s string) v3State { return v3Commit(foldH(v3Sep, v3Val, v3Init(), 
 //@   ensures [col] m.generatedColumn == colAfter(old(m.generatedColumn), s, len(s))
 //@   ensures [inv] smInv(m)
 
-//@ func encodeVLQ
+//@ func encodeVLQ(n)
 //@   props C09
 //@   mode bv
 //@   requires -(1<<62) < n && n < (1<<62)
@@ -369,7 +369,7 @@ func v3Decode(s string) v3State { return v3Commit(foldH(v3Sep, v3Val, v3Init(), 
 //@   ensures [wellformed] isVLQ(result)
 //@   ensures [roundtrip] vlqVal(result) == old(n)
 
-//@ func (m *SourceMapper) encodeMappings
+//@ func (m *SourceMapper) encodeMappings()
 //@   props C09
 //@   requires smInv(m)
 //@   requires forall(0, len(m.mappings), func(j int) bool { return bounded40(m.mappings[j].GeneratedColumn) && bounded40(m.mappings[j].SourceLine) && bounded40(m.mappings[j].SourceColumn) && bounded40(m.mappings[j].NameIndex) })
@@ -394,7 +394,7 @@ func v3Decode(s string) v3State { return v3Commit(foldH(v3Sep, v3Val, v3Init(), 
 //@   ensures [count] len(v3Decode(result).out) == len(m.mappings)
 //@   ensures [decodes] forall(0, len(m.mappings), func(j int) bool { return v3Decode(result).out[j] == m.mappings[j] })
 
-//@ func (m *SourceMapper) SourceMap
+//@ func (m *SourceMapper) SourceMap()
 //@   props C09
 //@   requires smInv(m)
 //@   assumes [bounded] forall(0, len(m.mappings), func(j int) bool { return bounded40(m.mappings[j].GeneratedColumn) && bounded40(m.mappings[j].SourceLine) && bounded40(m.mappings[j].SourceColumn) && bounded40(m.mappings[j].NameIndex) })
